@@ -16,6 +16,12 @@ EXTENDS Eval
 
 CONSTANT DEV_EmptyContainerDefault
 
+\* Seeded mutations of applyDefaults (MUT_Defaults = "none": the code as it is; each other value must be refuted):
+\*   "reqFirstBranchOnly"  only the "missing + own default" branch honours `required`
+\*   "requiredOneLevel"    the container is created when a default exists below, `required` looked at one level only
+\*   "typedObjectOnly"     an inserted default is completed with nested defaults only if type is exactly "object"
+CONSTANT MUT_Defaults
+
 IsReq(s, p) == "required" \in DOMAIN s /\ \E i \in DOMAIN s.required : s.required[i] = p
 IsObjS(s) == ~("bool" \in DOMAIN s)
 
@@ -27,12 +33,20 @@ HasDefaultsInProps(s) ==
 RECURSIVE Apply(_, _)
 Apply(s, v) ==
   IF v.t # "obj" \/ ~IsObjS(s) \/ ~("properties" \in DOMAIN s) THEN v
-  ELSE LET ps == {p \in DOMAIN s.properties : ~IsReq(s, p)}
+  ELSE LET ps == IF MUT_Defaults = "reqFirstBranchOnly" THEN DOMAIN s.properties ELSE {p \in DOMAIN s.properties : ~IsReq(s, p)}
            sub(p) == s.properties[p]
+           \* (mutation requiredOneLevel) a default applies somewhere below, required honoured at this level only
+           Applicable1(t) == IsObjS(t) /\ "properties" \in DOMAIN t
+                             /\ \E q \in DOMAIN t.properties : ~IsReq(t, q) /\ HasDefaultsInProps(t.properties[q])
            \* what p maps to afterwards (or "absent")
            after(p) ==
              IF p \in DOMAIN v.m THEN <<Apply(sub(p), v.m[p])>>
-             ELSE IF IsObjS(sub(p)) /\ "default" \in DOMAIN sub(p) THEN <<Apply(sub(p), sub(p).default)>>
+             ELSE IF IsObjS(sub(p)) /\ "default" \in DOMAIN sub(p)
+               THEN (IF MUT_Defaults = "reqFirstBranchOnly" /\ IsReq(s, p) THEN <<>>
+                     ELSE IF MUT_Defaults = "typedObjectOnly" /\ ~("type" \in DOMAIN sub(p) /\ sub(p).type = "object") THEN <<sub(p).default>>
+                     ELSE <<Apply(sub(p), sub(p).default)>>)
+             ELSE IF MUT_Defaults = "requiredOneLevel"
+               THEN (IF Applicable1(sub(p)) THEN <<Apply(sub(p), EmptyObj)>> ELSE <<>>)
              ELSE IF HasDefaultsInProps(sub(p))
                THEN LET c == Apply(sub(p), EmptyObj)
                     IN IF DEV_EmptyContainerDefault \/ DOMAIN c.m # {} THEN <<c>> ELSE <<>>
